@@ -28,6 +28,8 @@ COMMON = r'''
 #include <signal.h>
 #include <unistd.h>
 static std::string current_case;
+static const char *current_fn = "";
+#define FN(name) (current_fn = name)
 static int bad = 0;
 static std::string show(const std::string &s) {
   std::string r;
@@ -39,11 +41,11 @@ static std::string show(const std::string &s) {
   return "\"" + r + "\"";
 }
 static void on_alarm(int) {
-  printf("FAILS: does not terminate: %s\n", current_case.c_str());
+  printf("FAILS: %s: does not terminate: %s\n", current_fn, current_case.c_str());
   fflush(stdout);
   _exit(3);
 }
-#define CHECK(c, what) do { if (!(c)) { if (bad < 12) printf("FAILS: %s: %s\n", what, current_case.c_str()); ++bad; } } while (0)
+#define CHECK(c, what) do { if (!(c)) { if (bad < 12) { printf("FAILS: %s: %s\n", what, current_case.c_str()); fflush(stdout); } ++bad; } } while (0)
 /* all strings over `alpha` with length <= maxlen */
 static void strings(const std::string &alpha, int maxlen, std::vector<std::string> &out) {
   out.push_back("");
@@ -73,35 +75,35 @@ int main() {
   for (const std::string &s : S) for (size_t pos = 0; pos <= s.size(); ++pos) {
     char *b = heap(s); const char *end = b + s.size(), *c;
     current_case = "buffer " + show(s) + " cursor at " + std::to_string(pos);
-    c = b + pos; lex::skipTo(c, 'd');
+    c = b + pos; FN("lex::skipTo(c, delimiter)"); lex::skipTo(c, 'd');
     CHECK(b + pos <= c && c <= end, "lex::skipTo(c, delimiter): cursor stays inside the buffer");
     CHECK(c > end || *c == 0 || *c == 'd', "lex::skipTo(c, delimiter): stops at NUL or at the delimiter");
     for (const char *q = b + pos; q < c && q < end; ++q) CHECK(*q != 'd', "lex::skipTo(c, delimiter): stops at the FIRST delimiter");
-    c = b + pos; lex::skipTo(c, 'd', '.');
+    c = b + pos; FN("lex::skipTo(c, delimiter, escapeChar)"); lex::skipTo(c, 'd', '.');
     CHECK(b + pos <= c && c <= end, "lex::skipTo(c, delimiter, escapeChar): cursor stays inside the buffer");
     CHECK(c > end || *c == 0 || *c == 'd', "lex::skipTo(c, delimiter, escapeChar): stops at NUL or at the delimiter");
     for (const char *q = b + pos; q < c && q < end; ++q)
       CHECK(*q != 'd' || (q > b + pos && q[-1] == '.'), "lex::skipTo(c, delimiter, escapeChar): a delimiter passed over follows the escape character");
-    c = b + pos; lex::skipTo(c, 'd', (char) 0);
+    c = b + pos; FN("lex::skipTo(c, delimiter, 0)"); lex::skipTo(c, 'd', (char) 0);
     CHECK(b + pos <= c && c <= end && (c > end || *c == 0 || *c == 'd'), "lex::skipTo(c, delimiter, 0)");
     for (const char *set : sets) {
-      c = b + pos; lex::skipTo(c, set);
+      c = b + pos; FN("lex::skipTo(c, delimiters)"); lex::skipTo(c, set);
       CHECK(b + pos <= c && c <= end, "lex::skipTo(c, delimiters): cursor stays inside the buffer");
       CHECK(c > end || *c == 0 || in(set, *c), "lex::skipTo(c, delimiters): stops at NUL or at a character of the set");
       for (const char *q = b + pos; q < c && q < end; ++q) CHECK(!in(set, *q), "lex::skipTo(c, delimiters): stops at the FIRST character of the set");
-      c = b + pos; lex::skipTo(c, set, '.');
+      c = b + pos; FN("lex::skipTo(c, delimiters, escapeChar)"); lex::skipTo(c, set, '.');
       CHECK(b + pos <= c && c <= end, "lex::skipTo(c, delimiters, escapeChar): cursor stays inside the buffer");
       CHECK(c > end || *c == 0 || in(set, *c), "lex::skipTo(c, delimiters, escapeChar): stops at NUL or at a character of the set");
-      c = b + pos; lex::skipFrom(c, set);
+      c = b + pos; FN("lex::skipFrom"); lex::skipFrom(c, set);
       CHECK(b + pos <= c && c <= end, "lex::skipFrom: cursor stays inside the buffer");
       CHECK(c > end || *c == 0 || !in(set, *c), "lex::skipFrom: stops at NUL or at a character outside the set");
       for (const char *q = b + pos; q < c && q < end; ++q) CHECK(in(set, *q), "lex::skipFrom: passes over characters of the set only");
-      for (char ch : std::string("d.e a\n")) CHECK(lex::inCharset(ch, set) == in(set, ch), "lex::inCharset == membership");
+      FN("lex::inCharset"); for (char ch : std::string("d.e a\n")) CHECK(lex::inCharset(ch, set) == in(set, ch), "lex::inCharset == membership");
       CHECK(!lex::inCharset((char) 0, set), "lex::inCharset(0, set) is false");
     }
-    c = b + pos; lex::skipWhitespace(c);
+    c = b + pos; FN("lex::skipWhitespace"); lex::skipWhitespace(c);
     CHECK(b + pos <= c && c <= end && (c > end || *c == 0 || !in(" \t\r\n\v\f", *c)), "lex::skipWhitespace: inside the buffer, stops at NUL or non-whitespace");
-    c = b + pos; lex::skipToWhitespace(c);
+    c = b + pos; FN("lex::skipToWhitespace"); lex::skipToWhitespace(c);
     CHECK(b + pos <= c && c <= end && (c > end || *c == 0 || in(" \t\r\n\v\f", *c)), "lex::skipToWhitespace: inside the buffer, stops at NUL or whitespace");
     free(b);
   }
@@ -131,15 +133,15 @@ int main() {
       CHECK(b <= tok.fp.lineStart && tok.fp.lineStart <= end, what ": line start stays inside the buffer"); } while (0)
     const char ds[] = {'"', '\n', 'a'};
     for (char d : ds) {
-      RESET(); tok.skipTo(d); INSIDE("tokenizer_t::skipTo(char)");
+      RESET(); FN("tokenizer_t::skipTo(char)"); tok.skipTo(d); INSIDE("tokenizer_t::skipTo(char)");
       CHECK(tok.fp.start > end || *tok.fp.start == 0 || *tok.fp.start == d, "tokenizer_t::skipTo(char): stops at NUL or at the delimiter");
       for (const char *q = b + pos; q < tok.fp.start && q < end; ++q)
         CHECK(*q != d || (q > b + pos && q[-1] == '\\'), "tokenizer_t::skipTo(char): a delimiter passed over follows a backslash");
     }
     for (const char *set : sets) {
-      RESET(); tok.skipTo(set); INSIDE("tokenizer_t::skipTo(const char*)");
+      RESET(); FN("tokenizer_t::skipTo(const char*)"); tok.skipTo(set); INSIDE("tokenizer_t::skipTo(const char*)");
       CHECK(tok.fp.start > end || *tok.fp.start == 0 || in(set, *tok.fp.start), "tokenizer_t::skipTo(const char*): stops at NUL or at a character of the set");
-      RESET(); tok.skipFrom(set); INSIDE("tokenizer_t::skipFrom");
+      RESET(); FN("tokenizer_t::skipFrom"); tok.skipFrom(set); INSIDE("tokenizer_t::skipFrom");
       CHECK(tok.fp.start > end || *tok.fp.start == 0 || (!in(set, *tok.fp.start) && *tok.fp.start != '\\'), "tokenizer_t::skipFrom: stops at NUL or outside the set");
       for (const char *q = b + pos; q < tok.fp.start && q < end; ++q)
         CHECK(in(set, *q) || *q == '\\' || (q > b + pos && q[-1] == '\\'), "tokenizer_t::skipFrom: passes over set characters and backslash pairs only");
@@ -148,7 +150,7 @@ int main() {
     for (size_t e = pos; e <= s.size(); ++e) {
       current_case = "buffer " + show(s) + " token span [" + std::to_string(pos) + ", " + std::to_string(e) + ")";
       RESET(); tok.push(); tok.fp.start = b + e;
-      tok.countSkippedLines();
+      FN("countSkippedLines"); tok.countSkippedLines();
       CHECK(tok.fp.start == b + e, "countSkippedLines: the cursor is not moved");
       CHECK(b <= tok.fp.lineStart && tok.fp.lineStart <= end, "countSkippedLines: line start stays inside the buffer");
       tok.pop();
@@ -161,7 +163,7 @@ int main() {
     if (s.empty() || s[0] != '"') continue;
     char *b = heap(s); const char *end = b + s.size(); size_t pos = 0;
     current_case = "buffer " + show(s) + " (getRawString)";
-    RESET(); std::string value; tok.getRawString(value);
+    RESET(); std::string value; FN("tokenizer_t::getRawString"); tok.getRawString(value);
     INSIDE("tokenizer_t::getRawString");
     while (tok.stack.size()) tok.pop();
     free(b);
@@ -173,28 +175,32 @@ int main() {
 
 PRIM_PROG = COMMON + r'''
 #include <occa/types/primitive.hpp>
+#include <cctype>
 using namespace occa;
 int main() {
   signal(SIGALRM, on_alarm); alarm(120);
   std::vector<std::string> S; strings(std::string("01xbe+-. fLut"), 4, S);
   const char *extra[] = {"true", "false", "tru", "fals", "truefalse", "0x", "0b", "0xFFl", "0b101u", "1e", "1e+", "1e+ ", "1e+ 5", "1e5f",
-                         "1.5e-3", "-", "+", "- 1", "0", "00", "0.", ".5", "1ll", "1lu", "1ul", "0xg", "0b2", "1e1e1e1"};
+                         "1.5e-3", "-", "+", "- 1", "0", "00", "0.", ".5", "1ll", "1lu", "1ul", "0xg", "0b2", "1e1e1e1",
+                         "G", "FG", "fg", "aG1", "9:", "/0", "@A", "`a", "2", "12", "102", "true1", "falsex"};
   for (const char *e : extra) S.push_back(e);
   for (const std::string &s : S) for (size_t pos = 0; pos <= s.size(); ++pos) {
     char *b = heap(s); const char *end = b + s.size(), *c;
     current_case = "buffer " + show(s) + " cursor at " + std::to_string(pos);
     for (int sign = 0; sign < 2; ++sign) {
-      c = b + pos; primitive p = primitive::load(c, sign);
+      c = b + pos; FN("primitive::load:"); primitive p = primitive::load(c, sign);
       CHECK(b + pos <= c && c <= end, "primitive::load: cursor stays inside the buffer and does not move backwards");
     }
     for (int neg = 0; neg < 2; ++neg) {
-      c = b + pos; primitive p = primitive::loadHex(c, neg);
+      c = b + pos; FN("primitive::loadHex"); primitive p = primitive::loadHex(c, neg);
       CHECK(b + pos <= c && c <= end, "primitive::loadHex: cursor stays inside the buffer and does not move backwards");
       CHECK(c > end || !isxdigit((unsigned char) *c), "primitive::loadHex: stops at the first non-hex character");
+      for (const char *q = b + pos; q < c && q < end; ++q) CHECK(isxdigit((unsigned char) *q), "primitive::loadHex: passes over hex digits only");
       CHECK(((p.type & primitiveType::none) != 0) == (c == b + pos), "primitive::loadHex: none iff nothing consumed");
-      c = b + pos; p = primitive::loadBinary(c, neg);
+      c = b + pos; FN("primitive::loadBinary"); p = primitive::loadBinary(c, neg);
       CHECK(b + pos <= c && c <= end, "primitive::loadBinary: cursor stays inside the buffer and does not move backwards");
       CHECK(c > end || (*c != '0' && *c != '1'), "primitive::loadBinary: stops at the first non-binary character");
+      for (const char *q = b + pos; q < c && q < end; ++q) CHECK(*q == '0' || *q == '1', "primitive::loadBinary: passes over binary digits only");
       CHECK(((p.type & primitiveType::none) != 0) == (c == b + pos), "primitive::loadBinary: none iff nothing consumed");
     }
     free(b);
